@@ -59,8 +59,70 @@ def limit_chunkings(body):
     yield [x for i in range(0, len(body), 5) for x in (body[i:i + 5], b"")]
 
 
+WIRE_NL = [b"\r\n", b"\n", b"\r"]
+WIRE_PAD = [b"", b" ", b"\t "]
+WIRE_FOLD = [None, b"\t", b" "]
+
+
+def wire_encode(parts, boundary, nl, pad, fold):
+    """The same forms written the other ways the wire format allows: LF or CR alone as line break, transport padding after a
+    delimiter, a Content-Disposition header folded in front of its filename parameter."""
+    out = b""
+    for p in parts:
+        out += b"--" + boundary + pad + nl
+        cd = b'Content-Disposition: form-data; name="' + p["name"].encode() + b'"'
+        if p["filename"] is not None:
+            cd += b";" + (nl + fold if fold is not None else b" ") + b'filename="' + p["filename"].encode() + b'"'
+        out += cd + nl
+        if p.get("ctype"):
+            out += b"Content-Type: " + p["ctype"].encode() + nl
+        out += nl + p["content"] + nl
+    return out + b"--" + boundary + b"--" + pad + nl
+
+
+def run_wireforms(r, ni):
+    from baize.exceptions import HTTPException
+
+    P = MP.part
+    nl = WIRE_NL[ni]
+    boundary = b"bd"
+    forms = [[P("f", None, b"ab"), P("u", "C:\\reports\\q3.bin", b"0123456789"), P("g", None, b"cd")],
+             [P("u", "plain.bin", b"UPLOAD"), P("f", None, "é".encode())],
+             [P("f", None, b"only a field")]]
+    for fi, parts in enumerate(forms):
+        want_items = MR.expected_items(parts)
+        n = len(parts)
+        total = sum(len(p["content"]) for p in parts if p["filename"] is None)
+        for pad in WIRE_PAD:
+            for fold in WIRE_FOLD:
+                if fold is not None and not any(p["filename"] is not None for p in parts):
+                    continue
+                body = wire_encode(parts, boundary, nl, pad, fold)
+                for mp, mm in ((n, total), (n, total - 1), (n - 1, total), (n + 1, None)):
+                    if (mm is not None and mm < 0) or mp < 0:
+                        continue
+                    expect_413 = n > mp or (mm is not None and total > mm)
+                    for chunks in limit_chunkings(body):
+                        for name in ("parse_stream", "parse_async_stream"):
+                            r.count("evaluations")
+                            try:
+                                got = MP.PATHS[name](chunks, boundary, "utf-8", max_form_parts=mp, max_form_memory_size=mm)
+                                v = ("ok", got == want_items)
+                            except HTTPException as e:
+                                v = ("http", e.status_code)
+                            except Exception as e:  # noqa
+                                v = ("exc", type(e).__name__)
+                            if v != (("http", 413) if expect_413 else ("ok", True)):
+                                r.violation(f"wireforms:{name}:{'missed-413' if expect_413 else 'wrong-' + str(v[1])}",
+                                            {"mode": "wireforms", "nl": ni, "form": fi, "pad": pad, "fold": fold, "max_parts": mp, "max_mem": mm, "helper": name, "chunks": [len(c) for c in chunks]},
+                                            f"{name} form #{fi} written with line break {nl!r}, padding {pad!r} after delimiters, Content-Disposition folded with {fold!r}; max_form_parts={mp} max_form_memory_size={mm} chunks {[len(c) for c in chunks][:10]}: got {v}, expected {'413' if expect_413 else 'the form'}")
+                    r.count("distinct_nontrivial")
+    r.sample({"wireforms": {"line_break": repr(nl), "padding": [repr(x) for x in WIRE_PAD], "folding": [repr(x) for x in WIRE_FOLD]}})
+
+
 def shards(tier, seed):
     out = [("limits", i) for i in range(len(limit_forms()))]
+    out += [("wireforms", i) for i in range(len(WIRE_NL))]
     n = len(MP.corpus_bfs(tier))
     per = 4 if tier == "quick" else 6
     out += [("buffer", i, min(i + per, n)) for i in range(0, n, per)]
@@ -313,6 +375,10 @@ def run_scaled(r, tier):
 
 def run_shard(desc, tier):
     r = R()
+    if desc[0] == "wireforms":
+        run_wireforms(r, desc[1])
+        r.count("states", 1)
+        return r
     if desc[0] == "limits":
         run_limits(r, desc[1])
         r.count("states", 1)
@@ -350,6 +416,8 @@ def replay(w):
     r = R()
     if w["mode"] == "limits":
         run_limits(r, w["form"])
+    elif w["mode"] == "wireforms":
+        run_wireforms(r, w["nl"])
     elif w["mode"] == "helperbuf":
         run_helperbuf(r, w["k"])
     elif w["mode"] == "defaults":
